@@ -182,11 +182,26 @@ def rules_selection(run):
                           'given by the inner-first selector are ignored, and ignored sources are skipped; (d) selection and the '
                           'found flag happen exactly when the guard is absent or evaluates true')
     rets = [n for n in q.walk(F, False) if isinstance(n, ast.Return)]
-    run.anchor(len(rets) == 1 and isinstance(rets[0].value, ast.Name), r, 'single `return <selected list>`')
+    run.anchor(len(rets) >= 1 and all(isinstance(x.value, ast.Name) for x in rets) and len({x.value.id for x in rets}) == 1, r, '`return <selected list>`')
     sel = rets[0].value.id
     by_kind = {i[1]: i[0] for i in infos}
     run.anchor(all(k in by_kind for k in ('has_event', 'source', 'priority')), r, 'event/source/priority grouping loops')
     L_ev, L_src, L_pr = by_kind['has_event'], by_kind['source'], by_kind['priority']
+    # a return before the selection loops is the selection of nothing: legitimate exactly when there is nothing to select from, i.e. under a test that the
+    # sequence the event-class loop ranges over is empty
+    srcs = set()
+    for o_ in [L_ev.iter] + q.local_origin(F, L_ev.iter):
+        o_ = strip_cast(o_)
+        if isinstance(o_, ast.Call) and o_.args and isinstance(strip_cast(o_.args[0]), ast.Name):
+            srcs.add(strip_cast(o_.args[0]).id)
+    for x in rets:
+        if q.strictly_before(F, L_ev, x) or q.in_node(x, L_ev):
+            continue
+        at = guard_atoms(x)
+        empties = [a for a in at if (a[0] == 'falsy' and a[1] in srcs) or (a[0] == '==' and a[1] in ['len(%s)' % s_ for s_ in srcs] and a[2] == '0')
+                   or (a[0] == '==' and a[2] in ['len(%s)' % s_ for s_ in srcs] and a[1] == '0')]
+        run.check(bool(empties) and q.strictly_before(F, x, L_ev) is False and not q.in_node(x, L_ev), r, fi.short, 'an early return of the selection happens only when no transition is considered',
+                  'the selection is returned before the selection loops under %s: enabled transitions are not selected' % at, x)
     # (a)
     brk = [n for n in ast.walk(L_ev) if isinstance(n, ast.Break) and q.enclosing(n, (ast.For, ast.While)) is L_ev]
     good = [b for b in brk if guard_atoms(b, stop=L_ev) == [('truthy', sel, '')]]
@@ -337,7 +352,8 @@ def rules_selection(run):
                         else:
                             alts.append((v, [('?', q.unparse(v.test), '')]))
                     else:
-                        alts.append((v, guard_atoms(st)))
+                        base_ = guard_atoms(L_ev)       # (conditions under which the selection loops run at all are not conditions of the choice)
+                        alts.append((v, [a for a in guard_atoms(st) if a not in base_]))
             elif isinstance(selector, ast.IfExp):
                 c_ = q.canon_atom(selector.test)
                 if c_ and c_[0] == 'truthy' and c_[1] == 'inner_first':
@@ -468,7 +484,8 @@ def rules_selection(run):
             run.check(okk, r, m.short, "the context with 'event' reaches _evaluate_code", 'event context not passed', c)
             # the evaluation is the verdict: returned as it is, under no condition other than "the transition has a guard"
             at = [a for a in guard_atoms(c)]
-            okg = all(a in (('truthy', ps[1] + '.guard', ''), ('is not', ps[1] + '.guard', 'None')) for a in at)
+            g_forms = (ps[1] + '.guard', "getattr(%s, 'guard', None)" % ps[1])
+            okg = all(a[1] in g_forms and (a[0], a[2]) in (('truthy', ''), ('is not', 'None')) for a in at)
             st_ = q.enclosing_stmt(c)
             returned = any(isinstance(x_, ast.Return) and x_.value is not None and any(strip_cast(v_) is c for v_, at_ in q.cases(M, x_.value)) for x_ in q.walk(M, False))
             run.check(okg and returned, r, m.short, 'the value of the guard is the verdict',
